@@ -125,6 +125,18 @@ def check_pairing(idx: Index, rep: Report) -> None:
                 if pd1 or pd2 or guard_ok:
                     found = m
                     break
+            if found is None:
+                # a partner store on the right receiver whose VALUE this analysis cannot resolve (result of a call, e.g. a
+                # helper returning the last linked node): undecided, not a violation
+                for m, recv2, fld2, val2 in stores:
+                    if m is n or fld2 != partner:
+                        continue
+                    am = cfg.node_of(m)
+                    if cx.texts(recv2, am) & B:
+                        vt = cx.texts(val2, am)
+                        opaque = isinstance(val2, ast.Call) or (isinstance(val2, ast.Name) and any(isinstance(v_, ast.Call) for _, v_ in reaching_defs(cfg, val2.id, am)))
+                        if opaque:
+                            raise AnalysisError(f"{f.fq}: `{unparse(n)}` may be paired by `{unparse(m)}`, whose value comes from a call this analysis does not look into ({sorted(vt)[:2]})")
             if found is not None:
                 r.ok(inst, f"{f.module.relpath}:{n.lineno} `{unparse(n)}` <-> line {found.lineno} `{unparse(found)}`")
             else:
@@ -281,16 +293,53 @@ def check_use_pairing(idx: Index, rep: Report) -> None:
         rl, al = rem_loops[0], add_loops[0]
         if unparse(rl.iter) != f"zip(self.{vals}, self.{uses})" or unparse(rl.body[0]) != f"{unparse(rl.target.elts[0])}.remove_use({unparse(rl.target.elts[1])})":  # type: ignore[attr-defined]
             bad.append(("remove-pairing", f"old uses are not removed pairwise from zip(self.{vals}, self.{uses})"))
-        # new uses: Use(self, idx) for idx in range(len(new))
-        new_name = unparse(al.iter.args[0]) if isinstance(al.iter, ast.Call) and al.iter.args else "?"  # type: ignore[attr-defined]
-        uses_name = unparse(al.iter.args[1]) if isinstance(al.iter, ast.Call) and len(al.iter.args) > 1 else "?"  # type: ignore[attr-defined]
-        udef = [v for _, v in reaching_defs(cfg, uses_name, cfg.node_of(al)) if v is not None]
-        if not (len(udef) == 1 and unparse(udef[0]) == f"tuple((Use(self, idx) for idx in range(len({new_name}))))"):
-            bad.append(("new-uses", "the new Use objects are not Use(self, idx) for every position of the new list"))
-        if unparse(al.body[0]) != f"{unparse(al.target.elts[0])}.add_use({unparse(al.target.elts[1])})":  # type: ignore[attr-defined]
-            bad.append(("add-pairing", "new uses are not added pairwise"))
-        st = {unparse(s.targets[0]): unparse(s.value) for s in f.node.body if isinstance(s, ast.Assign) and isinstance(s.targets[0], ast.Attribute)}
-        if st.get(f"self.{vals}") != new_name or st.get(f"self.{uses}") != uses_name:
+        # new uses: the i-th new value gets Use(self, i), and that same object is what the uses tuple holds at i.
+        # Two accepted constructions (anything else is undecided, not a violation):
+        #   A  uses = tuple(Use(self, i) for i in range(len(new)));  for v, u in zip(new, uses): v.add_use(u)
+        #   B  for i, v in enumerate(new): u = Use(self, i); v.add_use(u); uses.append(u)
+        from ..setbuild import describe as describe_set, element_shape
+
+        adds_ = [c for c in calls_in(al) if call_attr(c) == "add_use" and len(c.args) == 1]
+        if len(adds_) != 1:
+            raise AnalysisError(f"{f.fq}: expected one add_use call in the loop over the new values")
+        ad = adds_[0]
+        recv, arg = unparse(ad.func.value), ad.args[0]  # type: ignore[attr-defined]
+        it = al.iter
+        new_name = uses_name = None
+        form = None
+        if isinstance(it, ast.Call) and call_attr(it) == "zip" and len(it.args) >= 2 and isinstance(al.target, ast.Tuple) and len(al.target.elts) == 2:
+            tg = [unparse(e_) for e_ in al.target.elts]
+            if recv == tg[0] and unparse(arg) == tg[1]:
+                form, new_name, uses_name = "A", unparse(it.args[0]), unparse(it.args[1])
+            elif recv == tg[1] and unparse(arg) == tg[0]:
+                form, new_name, uses_name = "A", unparse(it.args[1]), unparse(it.args[0])
+            else:
+                bad.append(("add-pairing", f"`{unparse(ad)}` does not add the use paired with the value by zip({', '.join(unparse(a_) for a_ in it.args[:2])})"))
+            if form == "A":
+                dsc = describe_set(f.node, cfg, ast.Name(id=uses_name, ctx=ast.Load()), cfg.node_of(al))
+                okA = not dsc.unknown and not dsc.bases and len(dsc.adds) == 1 and len(dsc.adds[0].iters) == 1 and dsc.adds[0].iters[0][1] == f"range(len({new_name}))" and element_shape(dsc.adds[0]) == "Use(self, _x)" and not dsc.adds[0].facts
+                if dsc.unknown:
+                    raise AnalysisError(f"{f.fq}: construction of `{uses_name}` not understood: {dsc.unknown[:2]}")
+                if not okA:
+                    bad.append(("new-uses", f"the new Use objects (`{[a_.elem for a_ in dsc.adds]}` over {[a_.iters for a_ in dsc.adds]}) are not Use(self, idx) for every position idx of the new list"))
+        elif isinstance(it, ast.Call) and call_attr(it) == "enumerate" and len(it.args) == 1 and isinstance(al.target, ast.Tuple) and len(al.target.elts) == 2:
+            ix, v_ = (unparse(e_) for e_ in al.target.elts)
+            new_name = unparse(it.args[0])
+            utxt = resolved_text(cfg, arg, cfg.node_of(ad))
+            if recv != v_:
+                bad.append(("add-pairing", f"`{unparse(ad)}` is not applied to the enumerated value `{v_}`"))
+            if utxt != f"Use(self, {ix})":
+                bad.append(("new-uses", f"the use added to the value at position {ix} is `{utxt}`, not Use(self, {ix})"))
+            apps = [c for c in calls_in(al) if call_attr(c) == "append" and len(c.args) == 1 and unparse(c.args[0]) == unparse(arg) and isinstance(c.func.value, ast.Name)]  # type: ignore[attr-defined]
+            if len(apps) == 1:
+                form, uses_name = "B", apps[0].func.value.id  # type: ignore[attr-defined]
+            else:
+                raise AnalysisError(f"{f.fq}: where the new uses are collected was not understood")
+        else:
+            raise AnalysisError(f"{f.fq}: the loop adding the new uses iterates `{unparse(it)}`, which is neither zip(new, uses) nor enumerate(new)")
+        sts = {unparse(s_.targets[0]): s_ for s_ in walk_local(f.node) if isinstance(s_, ast.Assign) and isinstance(s_.targets[0], ast.Attribute)}
+        sv, su = sts.get(f"self.{vals}"), sts.get(f"self.{uses}")
+        if sv is None or su is None or unparse(sv.value) != new_name or re.sub(r"^tuple\((\w+)\)$", r"\1", unparse(su.value)) != uses_name:
             bad.append(("store", f"self.{vals} / self.{uses} are not both replaced by the new list and its uses"))
         if cfg.node_of(rl) in cfg.reachable(cfg.node_of(al)):
             bad.append(("order", "old uses must be removed before the new ones are added"))
